@@ -1,6 +1,7 @@
 #!/bin/sh
 # dev tool: the repository suite, fast. xdist breaks the pexpect-based top-level tests (also on the
-# pinned tree), so those two files run serially. Expected: only the 15 test_socket_guard failures.
+# pinned tree, and they time out under heavy CPU load), so those two files are re-run serially.
+# Expected: first run = 15 test_socket_guard failures + the 14 pexpect tests; second run = 14 passed.
 cd "${1:-/repo}" || exit 2
-env -u BUIDL_VERIF /venv/bin/python -m pytest -q -p no:cacheprovider --timeout=900 -n 14 buidl 2>&1 | grep -E "^(FAILED|ERROR)|passed|failed" | grep -v socket_guard
+env -u BUIDL_VERIF /venv/bin/python -m pytest -q -p no:cacheprovider --timeout=900 -n 14 2>&1 | grep -E "^(FAILED|ERROR)|passed|failed" | grep -v -E "socket_guard|test_multiwallet.py|test_singlesweep.py"
 env -u BUIDL_VERIF /venv/bin/python -m pytest -q -p no:cacheprovider --timeout=900 test_multiwallet.py test_singlesweep.py 2>&1 | grep -E "^(FAILED|ERROR)|passed|failed"
